@@ -287,6 +287,12 @@ impl<T: ?Sized> RwLock<T> {
                 _ => (),
             };
             drop(state);
+
+            if !acquired {
+                // The attempt failed after the permits were taken (re-entrant read): give them back so
+                // that a failed `try_read` leaves the lock unchanged.
+                self.semaphore.release(typ.num_permits());
+            }
         }
 
         trace!(
